@@ -1,7 +1,9 @@
 package c13
 
 import (
+	"encoding/json"
 	"fmt"
+	"sort"
 	"strings"
 
 	metav1 "k8s.io/apimachinery/pkg/apis/meta/v1"
@@ -11,6 +13,7 @@ import (
 	"package-operator.run/internal/packages/zzverif/checks"
 	"package-operator.run/internal/packages/zzverif/explore"
 	"package-operator.run/internal/packages/zzverif/osw"
+	"package-operator.run/internal/packages/zzverif/pkgw"
 	"package-operator.run/internal/packages/zzverif/report"
 	"package-operator.run/internal/packages/zzverif/vorder"
 	"package-operator.run/internal/packages/zzverif/world"
@@ -50,6 +53,13 @@ func systemBody(p Pkg) explore.Body {
 		if odBefore == nil {
 			return "", "no deployment"
 		}
+		// what reached the cluster is what was rendered: the deployment's template, with its
+		// ObjectSlices resolved in the order it names them, holds every object exactly once
+		if deployed, err := deployedSpec(w, odBefore.Content); err != nil {
+			return "what the Package controller deployed cannot be resolved: " + err.Error(), ""
+		} else if v := conservation(p, pkgw.RenderResult{Spec: deployed}); len(v) > 0 {
+			return "the deployed ObjectDeployment (slices resolved) does not conserve the package's objects: " + strings.Join(v, "; "), ""
+		}
 		tmplBefore := osw.TemplateOf(odBefore.Content)
 		nOS := countObjectSets(w)
 		// force a re-render of the unchanged spec under an explorer-chosen map order
@@ -79,6 +89,33 @@ func systemBody(p Pkg) explore.Body {
 	}
 }
 
+// deployedSpec is the ObjectDeployment's template with every phase's ObjectSlices inlined after
+// its own objects, in the order the template names them.
+func deployedSpec(w *world.World, od map[string]any) (corev1alpha1.ObjectSetTemplateSpec, error) {
+	var d corev1alpha1.ObjectDeployment
+	b, _ := json.Marshal(od)
+	if err := json.Unmarshal(b, &d); err != nil {
+		return corev1alpha1.ObjectSetTemplateSpec{}, err
+	}
+	out := d.Spec.Template.Spec
+	for i := range out.Phases {
+		for _, sn := range out.Phases[i].Slices {
+			so := w.S.Objs[world.PKOKey("ObjectSlice", world.NS, sn)]
+			if so == nil {
+				return out, fmt.Errorf("phase %q references ObjectSlice %q which does not exist", out.Phases[i].Name, sn)
+			}
+			var sl corev1alpha1.ObjectSlice
+			sb, _ := json.Marshal(so.Content)
+			if err := json.Unmarshal(sb, &sl); err != nil {
+				return out, err
+			}
+			out.Phases[i].Objects = append(out.Phases[i].Objects, sl.Objects...)
+		}
+		out.Phases[i].Slices = nil
+	}
+	return out, nil
+}
+
 func countObjectSets(w *world.World) int {
 	n := 0
 	for k := range w.S.Objs {
@@ -91,13 +128,17 @@ func countObjectSets(w *world.World) int {
 
 func runSystem(o checks.Opts) *report.Report {
 	rep := report.New("C13", "unchanged-package")
-	rep.Rule = "for a subset of the generated packages: real Package -> ObjectDeployment -> ObjectSet controllers unpack the package, then the same spec is force-re-rendered (packageHashModifier) under every map order at one executed range site; the deployment's template must stay identical and no ObjectSet may be created"
+	rep.Rule = "for a subset of the generated packages: real Package -> ObjectDeployment -> ObjectSet controllers unpack the package, then the same spec is force-re-rendered (packageHashModifier) under every map order at one executed range site; the deployment's template must stay identical and no ObjectSet may be created; what was deployed (template with its ObjectSlices resolved, incl. packages whose phase exceeds the 1 MiB chunk limit) must hold every object of the reference render exactly once"
 	var pk []Pkg
 	for i, p := range packages(true) {
-		if len(p.Atoms) >= 3 && i%7 == 0 {
+		if (len(p.Atoms) >= 3 && i%7 == 0) || strings.Contains(p.Atoms, "G") {
 			pk = append(pk, p)
 		}
 	}
+	// the packages with an oversized phase first (the quick tier keeps a prefix)
+	sort.SliceStable(pk, func(i, j int) bool {
+		return strings.Contains(pk[i].Atoms, "G") && !strings.Contains(pk[j].Atoms, "G")
+	})
 	if o.Quick() && len(pk) > 48 {
 		pk = pk[:48]
 	}
